@@ -45,4 +45,14 @@ func init() {
 		func() engine.Module { return randommod.New() },
 	)
 	sys.Register()
+	// every single-module profile of a parameterised module also runs the parameter lab: its
+	// experiments on discarded branches are the "simulated transaction" / "failed proposal"
+	// stimulus under which state kept in process memory shows (the lab restricts itself to
+	// the modules whose workload is present)
+	for _, name := range []string{"amm", "farm", "htlc", "service", "token", "oraclefeed", "random"} {
+		if p := engine.GetProfile(name); p != nil {
+			orig := p.Mods
+			p.Mods = func() []engine.Module { return append(orig(), sys.NewParamLab()) }
+		}
+	}
 }
